@@ -202,7 +202,225 @@ def gen(_shared):
     text, rett, monad = _tr(h, fn, "glue_format_diff", {"cache_": CACHE, "st_": S, "diff": "gdiff", "is_now": B, "absolute": B, "locale": ("opt", S)}, None,
                             "translated from src/pendulum/helpers.py :: format_diff (state and cache threaded)", force_result=True)
     out.append(text)
+    h.funcs["_load"] = h.funcs["Locale.load"]
+
+    # ---------------- Duration.in_words / Interval.in_words / DateTime.diff_for_humans / Date.diff_for_humans
+    out.append("From PV Require Import Model.PdBase Model.DiffHumans.\n")
+    _gen_words(out, h, ast.parse(open(src("duration.py")).read()), "Duration.in_words", "Duration_in_words", "src/pendulum/duration.py")
+    _gen_words(out, h, ast.parse(open(src("interval.py")).read()), "Interval.in_words", "Interval_in_words", "src/pendulum/interval.py")
+    out.append("(* BY HAND: self.diff(other) of diff_for_humans: Model/DiffHumans.v diff_comps (Interval's ordering of the endpoints, precise_diff with\n"
+               "   the pure-Python (rs = false) or the compiled (rs = true) backend, the components), as the diff object format_diff reads.\n"
+               "   diff(None) would read the clock itself; diff_for_humans never does that (a theorem), so it is not modelled *)\n"
+               "Definition h_diff (rs : bool) (a : pdt) (b : option pdt) : result gdiff :=\n"
+               "  match b with\n  | None => Raise E_NotImplemented\n"
+               "  | Some b => match diff_comps rs a b with Ok ci => Ok (mkgdiff (fst ci) (snd ci)) | Raise e => Raise e end\n  end.\n")
+    _gen_dfh(out, h, ast.parse(open(src("datetime.py")).read()), "DateTime.diff_for_humans", "DateTime_diff_for_humans", "self.now", "src/pendulum/datetime.py")
+    _gen_dfh(out, h, ast.parse(open(src("date.py")).read()), "Date.diff_for_humans", "Date_diff_for_humans", "self.today", "src/pendulum/date.py")
     return "\n".join(out) + "\n"
+
+
+# ---------------------------------------------------------------------------------------------------------------- in_words / diff_for_humans
+NODE = ("opt", "node")
+WORD_ATTRS = {"years": "c_years", "months": "c_months", "weeks": "c_weeks", "remaining_days": "c_rdays", "hours": "c_hours",
+              "minutes": "c_minutes", "remaining_seconds": "c_rsecs"}
+FMT2 = "f'{abs(self.microseconds) / 1000000.0:.2f}'"
+
+
+def _call(f, *args):
+    return ast.Call(func=_name(f), args=list(args), keywords=[])
+
+
+class WRw(ast.NodeTransformer):
+    """the recognised shapes of Duration.in_words / Interval.in_words (anything else fails closed)"""
+
+    def visit_JoinedStr(self, node):
+        if ast.unparse(node) == FMT2:
+            return ast.copy_location(_call("_fmt2", ast.parse("self.microseconds").body[0].value), node)
+        v = node.values
+
+        def plain(x):
+            return isinstance(x, ast.FormattedValue) and x.conversion == -1 and x.format_spec is None
+        if len(v) == 4 and isinstance(v[0], ast.Constant) and v[0].value == "units." and plain(v[1]) and isinstance(v[2], ast.Constant) \
+                and v[2].value == "." and plain(v[3]):
+            return ast.copy_location(_call("_ukey", self.visit(v[1].value), self.visit(v[3].value)), node)
+        if len(v) == 2 and isinstance(v[0], ast.Constant) and v[0].value in ("units.second.", "units.microsecond.") and plain(v[1]):
+            return ast.copy_location(_call("_ukey", _name("_s_" + v[0].value.split(".")[1]), self.visit(v[1].value)), node)
+        raise P.Unsupported(f"unrecognised f-string: {ast.unparse(node)}")
+
+    def visit_Call(self, node):
+        f = ast.unparse(node.func)
+        if f == "pendulum.get_locale" and not node.args and not node.keywords:
+            return ast.copy_location(_call("get_locale", _name("st_")), node)
+        self.generic_visit(node)
+        if f == "translation.format" and len(node.args) == 1 and not node.keywords and isinstance(node.args[0], ast.Name):
+            which = {"interval_count": "_format_int", "count": "_format_str"}.get(node.args[0].id)
+            if which is None:
+                raise P.Unsupported(f"unrecognised format call: {ast.unparse(node)}")
+            return ast.copy_location(_call(which, _name("translation"), node.args[0]), node)
+        return node
+
+    def visit_BoolOp(self, node):
+        if isinstance(node.op, ast.Or) and len(node.values) == 2 and ast.unparse(node.values[0]) == "locale":
+            return ast.copy_location(_call("_or_str", _name("locale"), self.visit(node.values[1])), node)
+        self.generic_visit(node)
+        return node
+
+    def visit_Expr(self, node):
+        c = node.value
+        if isinstance(c, ast.Call) and ast.unparse(c.func) == "parts.append" and len(c.args) == 1 and not c.keywords:
+            return ast.copy_location(ast.Assign(targets=[ast.Name(id="parts", ctx=ast.Store())],
+                                                value=_call("_append", _name("parts"), self.visit(c.args[0]))), node)
+        self.generic_visit(node)
+        return node
+
+    def visit_AnnAssign(self, node):
+        if ast.unparse(node) in ("count: int | str = 0", "count: str | int = 0"):
+            return ast.copy_location(ast.Assign(targets=[ast.Name(id="count", ctx=ast.Store())], value=_call("_str_of_int", ast.Constant(value=0))), node)
+        self.generic_visit(node)
+        return node
+
+
+def _words_ctx(h):
+    w = P.Ctx()
+    w.int_boolop = w.obj_fragment = w.conservative_exit = True
+    w.funcs.update({k: h.funcs[k] for k in ("_locale", "_load", "get_locale")})
+    w.kwmethods[("translation", LOC)] = ("loc_translation", ["key"], {}, ["ukey"], NODE, "result")
+    w.kwmethods[("plural", LOC)] = ("loc_plural", ["number"], {}, [Z], "string", None)
+    w.kwmethods[("join", S)] = ("join", ["parts"], {}, ["lpstr"], S, None)
+    w.funcs["_ukey"] = ("mk_ukey", ["string", "string"], "ukey", None)
+    w.funcs["_append"] = ("lp_append", ["lpstr", S], "lpstr", None)
+    w.funcs["_format_int"] = ("fmt_count", [NODE, Z], S, "result")
+    w.funcs["_format_str"] = ("node_format", [NODE, S], S, "result")
+    w.funcs["_fmt2"] = ("fmt2", [Z], S, None)
+    w.funcs["_str_of_int"] = ("str_of_Z", [Z], S, None)
+    w.funcs["_or_str"] = ("opt_str_or", [("opt", S), S], S, None)
+    w.consts["_nil"] = ("lp_nil", "lpstr")
+    w.consts["_s_second"] = ('"second"%string', "string")
+    w.consts["_s_microsecond"] = ('"microsecond"%string', "string")
+    w.truth["lpstr"] = "lp_truth {x}"
+    w.attrs["microseconds"] = ("gw_us", Z)
+    return w
+
+
+def _gen_words(out, h, tree, qual, tag, where):
+    """Duration.in_words / Interval.in_words: the `intervals` literal -> a generated list; the loop body -> glue_<tag>_step; the loop -> its left fold
+    (hand template); the rest -> glue_<tag> with pendulum._LOCALE and Locale._cache threaded"""
+    fn = copy.deepcopy(P.find_function(tree, qual))
+    if [a.arg for a in fn.args.args] != ["self", "locale", "separator"] or [ast.unparse(d) for d in fn.args.defaults] != ["None", "' '"]:
+        raise P.Unsupported(f"{qual}: unexpected signature")
+    body = [s for s in fn.body if not (isinstance(s, ast.Expr) and isinstance(s.value, ast.Constant))]
+    body = [s for s in body if ast.unparse(s) != "from pendulum.locales.locale import Locale"]
+    # --- intervals = [("year", self.years), ...]
+    lit = body[0]
+    if not (isinstance(lit, ast.Assign) and ast.unparse(lit.targets[0]) == "intervals" and isinstance(lit.value, ast.List)):
+        raise P.Unsupported(f"{qual}: the first statement is not the intervals literal")
+    rows = []
+    for e in lit.value.elts:
+        if not (isinstance(e, ast.Tuple) and len(e.elts) == 2 and isinstance(e.elts[0], ast.Constant) and isinstance(e.elts[0].value, str)
+                and e.elts[0].value.isalpha() and isinstance(e.elts[1], ast.Attribute) and ast.unparse(e.elts[1].value) == "self"
+                and e.elts[1].attr in WORD_ATTRS):
+            raise P.Unsupported(f"{qual}: unrecognised intervals row {ast.unparse(e)}")
+        rows.append(f'("{e.elts[0].value}"%string, {WORD_ATTRS[e.elts[1].attr]} (gw_comp self))')
+    out.append(f"(* translated from {where} :: {qual}: the literal `intervals` (self.<property> = the component value of the receiver)\n"
+               f"     {ast.unparse(lit.value)} *)\n"
+               f"Definition glue_{tag}_intervals (self : gwords) : list (string * Z) :=\n  [" + ";\n   ".join(rows) + "].\n")
+    # --- the loop
+    idx = next((i for i, s in enumerate(body) if isinstance(s, ast.For)), None)
+    if idx is None or sum(isinstance(s, ast.For) for s in ast.walk(fn)) != 1:
+        raise P.Unsupported(f"{qual}: not exactly one for loop")
+    loop = body[idx]
+    if not (ast.unparse(loop.target) == "interval" and ast.unparse(loop.iter) == "intervals" and not loop.orelse and len(loop.body) >= 2
+            and ast.unparse(loop.body[0]) == "unit, interval_count = interval" and ast.unparse(body[idx - 1]) == "parts = []"):
+        raise P.Unsupported(f"{qual}: the loop does not have the recognised shape")
+    if any(isinstance(n, (ast.Break, ast.Continue, ast.Return)) for n in ast.walk(loop)):
+        raise P.Unsupported(f"{qual}: the loop has an exit")
+    if sum(isinstance(n, ast.Name) and n.id == "intervals" for n in ast.walk(fn)) != 2:
+        raise P.Unsupported(f"{qual}: `intervals` is used elsewhere")
+    pn = [n for n in ast.walk(fn) if isinstance(n, ast.Name) and n.id == "parts"]
+    w = _words_ctx(h)
+    step = ast.parse("def step(loaded_locale, parts, unit, interval_count):\n    pass").body[0]
+    step.body = [WRw().visit(s) for s in copy.deepcopy(loop.body[1:])] + [ast.parse("return parts").body[0]]
+    ast.fix_missing_locations(step)
+    text, rett, monad = _tr(w, step, f"glue_{tag}_step", {"loaded_locale": LOC, "parts": "lpstr", "unit": "string", "interval_count": Z}, None,
+                            f"translated from {where} :: {qual}: the BODY of `for interval in intervals:` after `unit, interval_count = interval`,\n"
+                            "   as a function of the variables it reads; returns the variable it updates (parts)", force_result=True)
+    if rett != "lpstr":
+        raise P.Unsupported(f"{qual}: unexpected step type {rett}")
+    out.append(text)
+    out.append(f"(* BY HAND: `for interval in intervals: unit, interval_count = interval; BODY` = the left fold of BODY over the list *)\n"
+               f"Fixpoint glue_{tag}_loop (L : gloc) (parts : lpstr) (l : list (string * Z)) : result lpstr :=\n"
+               f"  match l with\n  | [] => Ok parts\n  | (u, c) :: r => match glue_{tag}_step L parts u c with Raise e => Raise e | Ok p => glue_{tag}_loop L p r end\n  end.\n")
+    w.funcs["_intervals"] = (f"glue_{tag}_intervals", ["gwords"], "livs", None)
+    w.funcs["_loop"] = (f"glue_{tag}_loop", [LOC, "lpstr", "livs"], "lpstr", "result")
+    # --- the rest
+    body[0] = ast.parse("intervals = _intervals(self)").body[0]
+    body[idx - 1] = ast.parse("parts = _nil").body[0]
+    body[idx] = ast.parse("parts = _loop(loaded_locale, parts, intervals)").body[0]
+    seen_load = 0
+    for i, s in enumerate(body):
+        u = ast.unparse(s)
+        if u == "loaded_locale = pendulum.locale(locale)":
+            body[i] = ast.parse("loaded_locale, cache_ = _locale(cache_, locale)").body[0]
+            seen_load += 1
+        elif isinstance(s, ast.AnnAssign) and ast.unparse(s.target) == "loaded_locale" and ast.unparse(s.annotation) == "Locale" \
+                and isinstance(s.value, ast.Call) and ast.unparse(s.value.func) == "Locale.load" and len(s.value.args) == 1 and not s.value.keywords:
+            t = ast.parse("loaded_locale, cache_ = _load(cache_, X)").body[0]
+            t.value.args[1] = s.value.args[0]
+            body[i] = t
+            seen_load += 1
+    if seen_load != 1:
+        raise P.Unsupported(f"{qual}: the locale is not loaded by the recognised statement")
+    last = body[-1]
+    if not (isinstance(last, ast.Return) and sum(isinstance(n, ast.Return) for n in ast.walk(fn)) == 1):
+        raise P.Unsupported(f"{qual}: not a single final return")
+    body[-1] = ast.Return(value=ast.Tuple(elts=[last.value, _name("cache_")], ctx=ast.Load()))
+    fn.body = [WRw().visit(s) for s in body]
+    fn.args.args = [ast.arg(arg=a) for a in ("cache_", "st_", "self", "locale", "separator")]
+    fn.args.defaults = []
+    ast.fix_missing_locations(fn)
+    text, rett, monad = _tr(w, fn, f"glue_{tag}", {"cache_": CACHE, "st_": S, "locale": ("opt", S), "separator": S}, "gwords",
+                            f"translated from {where} :: {qual} (state and cache threaded; the loop is glue_{tag}_loop)", force_result=True)
+    if rett != (S, CACHE):
+        raise P.Unsupported(f"{qual}: unexpected type {rett}")
+    out.append(text)
+
+
+def _gen_dfh(out, h, tree, qual, tag, clock, where):
+    """DateTime.diff_for_humans / Date.diff_for_humans: the clock reading self.now() / self.today() is the explicit input clock_"""
+    fn = copy.deepcopy(P.find_function(tree, qual))
+    if [a.arg for a in fn.args.args] != ["self", "other", "absolute", "locale"] or [ast.unparse(d) for d in fn.args.defaults] != ["None", "False", "None"]:
+        raise P.Unsupported(f"{qual}: unexpected signature")
+    body = [s for s in fn.body if not (isinstance(s, ast.Expr) and isinstance(s.value, ast.Constant))]
+
+    class D(ast.NodeTransformer):
+        n = 0
+
+        def visit_Call(self, node):
+            f = ast.unparse(node.func)
+            if f == clock and not node.args and not node.keywords:
+                D.n += 1
+                return ast.copy_location(_name("clock_"), node)
+            self.generic_visit(node)
+            if f == "self.diff" and len(node.args) == 1 and not node.keywords:
+                return ast.copy_location(_call("_diff", _name("rs_"), _name("self"), node.args[0]), node)
+            if f == "pendulum.format_diff" and len(node.args) == 4 and not node.keywords:
+                return ast.copy_location(_call("_format_diff", _name("cache_"), _name("st_"), *node.args), node)
+            return node
+    fn.body = [D().visit(s) for s in body]
+    if D.n != 1:
+        raise P.Unsupported(f"{qual}: {clock}() is not read exactly once")
+    fn.args.args = [ast.arg(arg=a) for a in ("cache_", "st_", "clock_", "rs_", "self", "other", "absolute", "locale")]
+    fn.args.defaults = []
+    ast.fix_missing_locations(fn)
+    d = P.Ctx()
+    d.int_boolop = d.obj_fragment = d.conservative_exit = True
+    d.funcs["_format_diff"] = ("glue_format_diff", [CACHE, S, "gdiff", B, B, ("opt", S)], (S, CACHE), "result")
+    d.funcs["_diff"] = ("h_diff", [B, "pdt", ("opt", "pdt")], "gdiff", "result")
+    text, rett, monad = _tr(d, fn, f"glue_{tag}", {"cache_": CACHE, "st_": S, "clock_": "pdt", "rs_": B, "other": ("opt", "pdt"),
+                                                   "absolute": B, "locale": ("opt", S)}, "pdt",
+                            f"translated from {where} :: {qual} (state and cache threaded; {clock}() = the input clock_; self.diff(other) = h_diff)",
+                            force_result=True)
+    out.append(text)
 
 
 def steps(ctx):
